@@ -26,7 +26,7 @@ READ, WRITE = 0, 1
 
 
 def fieldname(n):
-    return n[2] if isinstance(n, tuple) and n[0] == "." else None
+    return n[2] if isinstance(n, tuple) and len(n) > 2 and n[0] == "." else None
 
 
 def o1_o2(prog, rep):
@@ -402,7 +402,12 @@ def o6(prog, rep):
         rep.defer_broken("O6: fewer than 2 deadline hand-overs in events_timer.c")
     reg = ut.func("events_timer_register")
     cp_ = [c for c in reg.calls("memcpy") if fieldname(norm(c.arg(0))[1] if norm(c.arg(0))[0] == "&" else ()) == "tv_orig" and norm(c.arg(1)) == ("v", reg.params[2]["name"], reg.params[2]["id"])]
-    rep.check(len(cp_) == 1, "O6-notearly", "the registered timeout is stored for later resets", reg.loc, "", function=reg.name, construct="tv_orig")
+    TO = ("v", reg.params[2]["name"], reg.params[2]["id"])
+    cp_ += [e for e in reg.all_elems() if e.is_assign and e.op == "=" and fieldname(norm(e.kid(0))) == "tv_orig" and norm(e.kid(1)) == ("*", TO)]
+    byref = [e for e in reg.all_elems() if e.is_assign and e.op == "=" and fieldname(norm(e.kid(0))) == "tv_orig" and norm(e.kid(1)) == TO]
+    rep.check(len(cp_) == 1 and not byref, "O6-notearly", "the registered timeout is copied into the timer's record for later resets", (byref[0].where if byref else reg.loc),
+              "the record keeps the caller's pointer instead of the value: the storage is the caller's (events_timer_register_double passes the address of a local), "
+              "and a later reset computes its deadline from whatever lies there" if byref else "", function=reg.name, construct="tv_orig")
     # events_timer_get: now from a successful clock read
     g = ut.func("events_timer_get")
     gp_ = list(g.calls("timerqueue_getptr"))
